@@ -253,6 +253,7 @@ func runC13(c *core.Ctx) {
 		c12PoolRules(c, r12, c.RepoFunctions(), c12AllowedWriters(r12), "R13d", "R13d", "R13d")
 	}
 	c20VMPool(c, "R13d")
+	poolTypestate(c, "R13d")
 	c.Floor("R13d", 25, "node pool and VM pool discipline")
 
 	// ---------------- R13e switches
